@@ -29,7 +29,7 @@ FP = [('Python/dawgie/db/shelve/comms.py',
       ('Python/dawgie/db/shelve/comms.py', ['acquire', 'release']),
       ('Python/dawgie/pl/message.py', ['receive']),
       ('Python/dawgie/context.py', ['lock_db', 'unlock_db'])]
-EV = {'A': 'Acquire', 'P': 'Poll', 'R': 'Release', 'D': 'Drop', 'T': 'Timer'}
+EV = {'A': 'Acquire', 'P': 'Poll', 'R': 'Release', 'D': 'Drop', 'T': 'Timer', 'O': 'Reopen'}
 
 
 FP_FILE = os.path.join(core.VERIF, 'corpus', 'C13', 'fingerprints.json')
@@ -58,7 +58,7 @@ def histories(ctx):
     # exhaustive small scope
     scopes = [(2, 4)] if ctx.quick else [(2, 4), (3, 4)]
     for n, ln in scopes:
-        alpha = [(e, c) for e in 'APRDT' for c in range(n)]
+        alpha = [(e, c) for e in 'APRDT' for c in range(n)] + [('O', 0)]
         for seq in itertools.product(alpha, repeat=ln):
             hs.append({'n': n, 'events': [list(x) for x in seq], 'kind': 'all-%d-%d' % (n, ln)})
     # seeded long histories: client scripts + noise, a drop injected anywhere
@@ -70,6 +70,8 @@ def histories(ctx):
         for _ in range(ln):
             c = rng.randrange(n)
             r = rng.random()
+            if rng.random() < 0.06:
+                evs.append(['O', 0])      # the database is closed and reopened (copy / archive)
             if c not in started and r < 0.7:
                 e = 'A'
                 started.add(c)
@@ -94,6 +96,7 @@ def histories(ctx):
     for i in range(len(base) + 1):
         for c in range(3):
             hs.append({'n': 3, 'events': base[:i] + [['D', c]] + base[i:], 'kind': 'drop-injected'})
+        hs.append({'n': 3, 'events': base[:i] + [['O', 0]] + base[i:], 'kind': 'reopen-injected'})
     return hs
 
 
@@ -174,7 +177,7 @@ def nontrivial(h, obs):
 
 
 def ev_term(e):
-    return '%s %d' % (EV[e[0]], e[1])
+    return 'Reopen' if e[0] == 'O' else 'Ev (%s %d)' % (EV[e[0]], e[1])
 
 
 def model_eval(ctx, hs):
@@ -183,7 +186,7 @@ def model_eval(ctx, hs):
     for i in range(0, len(hs), step):
         part = hs[i:i + step]
         items = ';'.join('(%d, [%s])' % (h['n'], ';'.join(ev_term(e) for e in h['events'])) for h in part)
-        exprs.append('map (fun p => obs_trace (fst p) (snd p)) [%s]' % items)
+        exprs.append('map (fun p => obs_xtrace (fst p) (snd p)) [%s]' % items)
         shape.append(len(part))
     res = ctx.coq_eval(['DV.Model.Lock'], exprs, z_scope=False, chunk=10)
     out = []
